@@ -34,6 +34,57 @@ def judge(rec):
     return bad
 
 
+def callgraph(R):
+    """translate the source of skops/io into Gen/CallGraphGen.v (fail-closed) and compile it"""
+    p = C.run_impl("callgraph.py", [R.gen / "CallGraphGen.v", R.gen / "callgraph.json"], timeout=300)
+    if p.returncode != 0:
+        R.obligation_broken("source translator harness/callgraph.py (fail-closed)", p.stderr.decode(errors="replace")[-1500:])
+        # the props file needs the module: give it an empty graph so that the static theorem is reported, not a build error
+        (R.gen / "CallGraphGen.v").write_text('From Coq Require Import String List.\nImport ListNotations.\n'
+                                               'Definition callgraph : list (string * (list string * list string)) := [].\n'
+                                               'Definition entries : list string := [].\nDefinition reach_hint : list string := [].\n'
+                                               'Definition post_witness_path : list string := [].\n')
+        C.coqc(R.gen / "CallGraphGen.v", R.gen)
+        return None
+    info = json.loads((R.gen / "callgraph.json").read_text())
+    C.coqc(R.gen / "CallGraphGen.v", R.gen)
+    R.checker_cmds.append("harness/callgraph.py -> CallGraphGen.v (call graph + effect table translated from skops/io source)")
+    R.trusted_base.append("harness/callgraph.py: AST translator skops/io -> call graph (over-approximation rules in its docstring); its edge relation is "
+                          "validated against the calls observed under sys.setprofile on every run; its tables of effectful primitives are trusted")
+    R.notes["callgraph"] = {k: info[k] for k in ("functions", "edges", "entries", "reachable_before_verdict", "reflect_reachable")}
+    for bad in info["effectful_reachable"]:
+        # the static theorem will fail; say where (this is the detail of the broken obligation, the search oracle below looks for an input)
+        R.notes.setdefault("callgraph_paths_to_effects", []).append(bad)
+    return info
+
+
+def check_dynamic_edges(R, cg, dyn):
+    """every call between skops.io functions observed at run time must be an edge of the translated graph"""
+    if cg is None:
+        return
+    E = cg["edges_list"]
+
+    def static_calls(f):
+        if f in ("_persist.load", "_persist.loads"):
+            return set(E.get(f + "@pre", [])) | set(E.get(f + "@post", [])) | set(E.get(f, []))
+        return set(E.get(f, []))
+    missing = []
+    for a, b in sorted(dyn):
+        sc = static_calls(a)
+        if b in sc or a == b:
+            continue
+        # through the singledispatch function: get_state -> _get_state -> registered function
+        if "_utils._get_state" in sc and b in static_calls("_utils._get_state"):
+            continue
+        missing.append((a, b))
+    R.notes["dynamic_call_edges_observed"] = len(dyn)
+    R.notes["dynamic_call_edges_missing_from_static_graph"] = missing[:20]
+    R.count("dyn-edges", len(dyn))
+    if missing:
+        R.obligation_broken("correspondence C02/call-graph: a call observed at run time is not an edge of the translated graph",
+                            "; ".join(f"{a} -> {b}" for a, b in missing[:10]))
+
+
 def run(R, only_cases=None):
     R.trusted_base += ["Coq 8.16.1 kernel", "observation from outside: sys.addaudithook (import/open/os.*/subprocess/...), wrapped gettype/_import_obj/importlib.import_module, canary ledger"]
     R.assumptions += ["the theorem side is by construction (the model's inspection functions are pure and have no access to name resolution); what ties it to the code "
@@ -42,6 +93,7 @@ def run(R, only_cases=None):
     snap = R.snapshot()
     if snap is None:
         return
+    cg = callgraph(R)
     R.prove("C02")
     scratch = C.BUILD / "scratch" / "C02"
     shutil.rmtree(scratch, ignore_errors=True)
@@ -81,6 +133,11 @@ def run(R, only_cases=None):
     with ThreadPoolExecutor(shards) as ex:
         outs = list(ex.map(one, chunks))
     nsteps = 0
+    dyn = set()
+    for o in outs:
+        if o and "dyn_edges" in o[-1]:
+            dyn |= {tuple(e) for e in o.pop()["dyn_edges"]}
+    check_dynamic_edges(R, cg, dyn)
     for s, o in enumerate(outs):
         for k, rec in enumerate(o):
             c = cases[s + k * shards]
